@@ -584,3 +584,6 @@ def run_shard(shard) -> Result:
 def replay(w):
     r = run_shard({"item": w["item"], "seed": 0, "k": 3, "only_method": w.get("method"), "opts": w.get("opts", "")})
     return [v for v in r.violations if v["witness"].get("service", w.get("service")) == w.get("service")]
+
+
+RULE += ' Request streams of 64..300 messages from list / generator / async generator on the stream-unary and stream-stream methods of the service matrix.'
